@@ -163,8 +163,7 @@ def run(ctx: Context, rep) -> None:
                        message="a possibly infinite stream is consumed "
                        "eagerly here" if "inf" in tags else
                        "eager consumer of a finite value")
-    if n_sinks < 8 and not rep.violations:
-        raise AnalysisError(f"C14.lazy: {n_sinks} eager sinks, floor 8")
+    rep.floor("C14.lazy", n_sinks, 8, "instances")
     rep.info("C14.lazy", f"{n_sources} possibly-infinite parameters, "
              f"{n_sinks} eager consumer arguments inspected in "
              f"{len(scope)} functions")
@@ -258,8 +257,7 @@ def run(ctx: Context, rep) -> None:
                        message="the buffer grows only inside the bounded "
                        "prefill (its size never exceeds the configured "
                        "buffer size)")
-    if n_loops < 8 and not rep.violations:
-        raise AnalysisError(f"C14.bound: {n_loops} pull loops, floor 8")
+    rep.floor("C14.bound", n_loops, 8, "instances")
 
     rep.rule(
         "C14.config",
